@@ -272,6 +272,16 @@ def d6(ctx, F):
     ctx.floor("C03.D6.poll-fns", n, 4)
 
 
+def d7(ctx, F):
+    """each accepted item is sent once: a publisher's pending batch is never copied (`duplicate()` starts with an empty batch of the same
+    configuration) — type-level: MessageBatch is not Clone/Copy; and what the router hands to the fan-out is flushed to every subscriber
+    (FanoutMany::poll_flush answers Ready only after a complete sweep)"""
+    bad = [i.get("trait") for i in F.impls_of(self_adt="selium::batching::message_batch::MessageBatch") if i.get("trait") in ("core::clone::Clone", "core::marker::Copy")]
+    ctx.check(not bad, "C03.D7.batch-not-cloned", "messagebatch-cloneable", "MessageBatch (which owns the queued messages) is not Clone: a duplicated publisher cannot inherit queued items (%s)" % (bad or "no Clone impl"))
+    from . import sweeps
+    sweeps.fanout_sweep(ctx, F, "C03.D7", "poll_flush")
+
+
 def run(ctx):
     F = ctx.facts("quick")
     d1(ctx, F)
@@ -280,3 +290,4 @@ def run(ctx):
     d4(ctx, F)
     d5(ctx, F)
     d6(ctx, F)
+    d7(ctx, F)
